@@ -77,7 +77,14 @@ class C06(XsProp):
                 elif k < 0.55:
                     op = '%s %s' % (size(), rng.choice(['int', 'uint', 'uint', 'float']))
                 elif k < 0.62:
-                    op = '%s magic' % rng.choice(['|ff|', '|0|', '||', '|x.x|', '|41 42|', '"AB" >bitstr', '1'])
+                    if rng.random() < 0.4:
+                        # the pattern is itself a slice read from the input (so it starts inside its buffer); the cursor goes back so that
+                        # the pattern can match: read, seek back, magic - as three separate steps
+                        nb = rng.choice([8, 8, 4, 16, 3])
+                        steps.append('eval %s | cursor | stack' % hexsrc('offset %d bits swap seek' % nb))
+                        op = 'magic'
+                    else:
+                        op = '%s magic' % rng.choice(['|ff|', '|0|', '||', '|x.x|', '|41 42|', '"AB" >bitstr', '1'])
                 elif k < 0.72:
                     op = '%s seek' % rng.choice([str(rng.randint(0, tot + 8)), str(s), str(e), size()])
                 elif k < 0.78:
@@ -200,7 +207,17 @@ class C06(XsProp):
                             if cu != want:
                                 bad = '`close-bitstr` restored %s, suspended was %s' % (cu, want)
                     elif word == 'magic':
-                        pass
+                        # the pattern: a literal in the same source, or the value on top of the stack before
+                        pat = None
+                        if op == 'magic' and prev_stack:
+                            t = cells.parse(prev_stack[-1])
+                            t = cells.strip(t)
+                            pat = t[1] if t[0] == 'B' else None
+                        if pat is not None:
+                            if cu[:2] + (cu[3],) != (start, end, bits) or cu[2] != off + len(pat):
+                                bad = '`magic` moved the cursor %s -> %s (expected offset %d, the pattern has %d bits)' % (prev_cur, cu, off + len(pat), len(pat))
+                            elif bits[off - start: off - start + len(pat)] != pat:
+                                bad = '`magic` succeeded although the input at the cursor is not the pattern'
                 prev_cur, prev_stack = cu, sk
             if bad:
                 fails.append(('case: %s\nwords: %s\nresult: %s' % (c, src_of(c), o[:1500]), bad))
